@@ -85,9 +85,17 @@ type FenceObj struct {
 	Kind                           string
 	Lat, Lon                       float64
 	MinLat, MinLon, MaxLat, MaxLon float64
+	JSON                           string // Kind "json": SET ... OBJECT <geojson>
 }
 
 func (o FenceObj) object() geojson.Object {
+	if o.Kind == "json" {
+		g, err := geojson.Parse(o.JSON, nil)
+		if err != nil {
+			panic(err)
+		}
+		return g
+	}
 	if o.Kind == "bounds" {
 		return geojson.NewRect(geometry.Rect{
 			Min: geometry.Point{X: o.MinLon, Y: o.MinLat},
@@ -116,4 +124,10 @@ func FenceObjRect(o FenceObj) (float64, float64, float64, float64) {
 func FenceObjCenter(o FenceObj) (float64, float64) {
 	c := o.object().Center()
 	return c.Y, c.X
+}
+
+// FenceObjDistance returns a.Distance(b) for two stored objects, the metres
+// roaming fences report.
+func FenceObjDistance(a, b FenceObj) float64 {
+	return a.object().Distance(b.object())
 }
